@@ -545,6 +545,16 @@ class Connection(ExportImport):
         self._added_during_commit = None
 
     def _store_objects(self, writer, transaction):
+        try:
+            self._store_queued_objects(writer, transaction)
+        finally:
+            # An error left new objects, which already got an oid, unstored:
+            # they belong to no database (the abort cannot know them).
+            for obj in writer._stack:
+                del obj._p_jar
+                del obj._p_oid
+
+    def _store_queued_objects(self, writer, transaction):
         for obj in writer:
             oid = obj._p_oid
             serial = getattr(obj, "_p_serial", z64)
@@ -565,6 +575,12 @@ class Connection(ExportImport):
                 implicitly_adding = self._added.pop(oid, None) is None
 
                 self._creating[oid] = implicitly_adding
+                try:
+                    # Known to the cache from now on, so that the abort after
+                    # an error while serializing or storing it disowns it.
+                    self._cache[oid] = obj
+                except Exception:
+                    pass  # (a wrapped object, handled below)
 
             else:
                 self._modified.append(oid)
